@@ -296,7 +296,7 @@ impl MT202 {
         if let Some(ref info) = self.field_72 {
             info.information
                 .iter()
-                .any(|line| line.contains("/REJT/") || line.contains("/RJT/"))
+                .any(|line| line.contains("/REJT/"))
         } else {
             false
         }
@@ -307,7 +307,7 @@ impl MT202 {
         if let Some(ref info) = self.field_72 {
             info.information
                 .iter()
-                .any(|line| line.contains("/RETN/") || line.contains("/RET/"))
+                .any(|line| line.contains("/RETN/"))
         } else {
             false
         }
